@@ -32,11 +32,11 @@ theorem uncomputeLoop_sem {marked : List Nat} :
     s'.qc.qmap = s.qc.qmap ∧ s'.qc.numQubits = s.qc.numQubits ∧ s'.qc.free = s.qc.free ∧
     s'.qc.anc = s.qc.anc ∧ s'.qc.marked = s.qc.marked ∧ s'.expq = s.expq ∧
     (∀ x ∈ unc, x ∈ r.1) ∧ (∀ g ∈ gs, marked.contains g.target = true → g.target ∈ r.1) ∧
-    r.2 = keepRev ++ gs.filter (fun g => !marked.contains g.target)
+    r.2 = keepRev ++ gs.filter (fun g => !marked.contains g.target) ∧ s'.qc.kept = s.qc.kept
   | [], unc, keepRev, r, s, s', h, _ => by
     unfold uncomputeLoop at h
     obtain ⟨rfl, rfl⟩ := run_pure_ok.mp h
-    exact ⟨rfl, rfl, rfl, rfl, rfl, rfl, rfl, fun x hx => hx, fun g hg => absurd hg List.not_mem_nil, by simp⟩
+    exact ⟨rfl, rfl, rfl, rfl, rfl, rfl, rfl, fun x hx => hx, fun g hg => absurd hg List.not_mem_nil, by simp, rfl⟩
   | g :: gs, unc, keepRev, r, s, s', h, hm => by
     unfold uncomputeLoop at h
     dsimp only at h
@@ -54,13 +54,13 @@ theorem uncomputeLoop_sem {marked : List Nat} :
           s'.qc.qmap = s.qc.qmap ∧ s'.qc.numQubits = s.qc.numQubits ∧ s'.qc.free = s.qc.free ∧
           s'.qc.anc = s.qc.anc ∧ s'.qc.marked = s.qc.marked ∧ s'.expq = s.expq ∧
           (∀ x ∈ unc, x ∈ r.1) ∧ (∀ g' ∈ g :: gs, marked.contains g'.target = true → g'.target ∈ r.1) ∧
-          r.2 = keepRev ++ (g :: gs).filter (fun g => !marked.contains g.target) := by
+          r.2 = keepRev ++ (g :: gs).filter (fun g => !marked.contains g.target) ∧ s'.qc.kept = s.qc.kept := by
         intro s2 hq he2 h2
-        obtain ⟨e1, e2, e3, e4, e5, e6, e7, e8, e9, e10⟩ := uncomputeLoop_sem gs _ _ h2 hm'
+        obtain ⟨e1, e2, e3, e4, e5, e6, e7, e8, e9, e10, e11⟩ := uncomputeLoop_sem gs _ _ h2 hm'
         have hcur2 : cur σ0 s2 = cur σ0 s1 := by unfold cur; rw [hq]
         refine ⟨?_, by rw [e2, hq]; exact ha.qmap, by rw [e3, hq]; exact ha.nq, by rw [e4, hq]; exact ha.free,
           by rw [e5, hq]; exact ha.anc, by rw [e6, hq]; exact ha.marked, by rw [e7, he2]; exact ha.expq,
-          fun x hx => e8 x (mem_setIns_of_mem hx), ?_, ?_⟩
+          fun x hx => e8 x (mem_setIns_of_mem hx), ?_, ?_, by rw [e11, hq]; exact ha.kept⟩
         · rw [e1, hcur2, hstep]
           simp only [List.filter_cons, hc, ↓reduceIte, runF_cons]
         · intro g'' hg'' hc''
@@ -74,8 +74,8 @@ theorem uncomputeLoop_sem {marked : List Nat} :
         exact rest (s2 := { s1 with events := s1.events ++ ["staleReplay"] }) rfl rfl h2
       · exact rest rfl rfl h1
     · have hc' : marked.contains g.target = false := by simpa using hc
-      obtain ⟨e1, e2, e3, e4, e5, e6, e7, e8, e9, e10⟩ := uncomputeLoop_sem gs _ _ h hm'
-      refine ⟨?_, e2, e3, e4, e5, e6, e7, e8, ?_, ?_⟩
+      obtain ⟨e1, e2, e3, e4, e5, e6, e7, e8, e9, e10, e11⟩ := uncomputeLoop_sem gs _ _ h hm'
+      refine ⟨?_, e2, e3, e4, e5, e6, e7, e8, ?_, ?_, e11⟩
       · rw [e1]; simp only [List.filter_cons, hc', Bool.false_eq_true, ↓reduceIte]
       · intro g'' hg'' hc''
         rcases List.mem_cons.mp hg'' with rfl | hg''
@@ -93,7 +93,8 @@ theorem uncompute_sem {r : List Nat} {s s' : CState} (h : uncompute.run s = .ok 
     s'.qc.free = s.qc.marked.foldl setIns s.qc.free ∧
     s'.qc.marked = s.qc.marked.filter (fun x => !r.contains x) ∧
     (∀ g ∈ s.qc.gatesComputed.toList, s.qc.marked.contains g.target = true → g.target ∈ r) ∧
-    s'.qc.gatesComputed.toList = s.qc.gatesComputed.toList.filter (fun g => !s.qc.marked.contains g.target) := by
+    s'.qc.gatesComputed.toList = s.qc.gatesComputed.toList.filter (fun g => !s.qc.marked.contains g.target) ∧
+    s'.qc.kept = s.qc.kept := by
   unfold uncompute at h
   obtain ⟨qc, s1, hq, h1⟩ := run_bind_ok.mp h
   obtain ⟨rfl, rfl⟩ := getQC_run hq
@@ -106,9 +107,9 @@ theorem uncompute_sem {r : List Nat} {s s' : CState} (h : uncompute.run s = .ok 
     have ht : ∀ l : List AGate, l.filter (fun g => !([] : List Nat).contains g.target) = l :=
       fun l => List.filter_eq_self.mpr (by simp)
     refine ⟨by unfold rep; rw [hf]; rfl, rfl, rfl, rfl, fun p hp => hp, rfl, rfl, fun g _ hc => by simp at hc,
-      (ht _).symm⟩
+      (ht _).symm, rfl⟩
   · obtain ⟨x, s2, hloop, h2⟩ := run_bind_ok.mp h1
-    obtain ⟨e1, e2, e3, e4, e5, e6, e7, _, e9, e10⟩ := uncomputeLoop_sem (σ0 := σ0) _ _ _ hloop
+    obtain ⟨e1, e2, e3, e4, e5, e6, e7, _, e9, e10, e11⟩ := uncomputeLoop_sem (σ0 := σ0) _ _ _ hloop
       (fun g hg' => (hg.comp_ok g (List.mem_reverse.mp hg')).1)
     obtain ⟨unc, keepRev⟩ := x
     dsimp only at h2
@@ -116,7 +117,7 @@ theorem uncompute_sem {r : List Nat} {s s' : CState} (h : uncompute.run s = .ok 
     obtain ⟨rfl, rfl⟩ := run_pure_ok.mp h3
     have := modQC_run hm; subst this
     dsimp only at e9 e10 ⊢
-    refine ⟨?_, e2, e3, e5, fun p hp => by rw [← e7]; exact hp, by rw [e4], rfl, ?_, ?_⟩
+    refine ⟨?_, e2, e3, e5, fun p hp => by rw [← e7]; exact hp, by rw [e4], rfl, ?_, ?_, e11⟩
     · show runF s2.qc.gates.toList σ0 = _
       have : cur σ0 s2 = runF s2.qc.gates.toList σ0 := rfl
       rw [← this, e1]
@@ -135,7 +136,7 @@ theorem Pre2.addQubit {name : String} {a : Nat} {s s' : CState} (hp : Pre2 scope
     Pre2 scope ρ σ0 s' := by
   have hg : Good s' := (addQubit_ok (B := fun _ => True) hadd hp.good (Or.inl trivial)).1.good
   obtain ⟨rfl, rfl⟩ := addQubit_run hadd
-  refine ⟨hg, ?_, ?_, ?_, hp.scopeOK, hp.freeNd, hp.freeAnc, hp.mkAnc⟩
+  refine ⟨hg, ?_, ?_, ?_, hp.scopeOK, hp.freeNd, hp.freeAnc, hp.mkAnc, hp.keptNF⟩
   · intro q hq
     refine hp.zero q ?_
     rcases hq with hq | hq
@@ -252,7 +253,7 @@ theorem topSym2 {n r : String} {iret : Nat} {s t : CState}
 
 theorem topExpr2 {e : BExp} {r : String} {iret : Nat} {s t : CState}
     (h : (compileExpr e none (some r)).run s = .ok (iret, t)) (hp : Pre2 scope ρ σ0 s)
-    (hwf : wfExp scope wo e = true) (hdist : Distinct (compKeys e)) (hr : ∀ m, Known scope m → m ≠ r)
+    (hwf : wfExpW scope wo e = true) (hdist : Distinct (compKeys e)) (hr : ∀ m, Known scope m → m ≠ r)
     (hcache : ∀ p ∈ s.expq, ∀ c ∈ compKeys e, (p.1 == c) = false) :
     TopGoal scope ρ σ0 wo (· ∈ compKeys e) (e.eval ρ) s t iret := by
   have gen : isLeaf e = false → TopGoal scope ρ σ0 wo (· ∈ compKeys e) (e.eval ρ) s t iret := by
@@ -266,7 +267,7 @@ theorem topExpr2 {e : BExp} {r : String} {iret : Nat} {s t : CState}
   cases e with
   | sym n =>
     unfold compileExpr at h
-    obtain ⟨p, sem, hnav, hval⟩ := topSym2 (wo := wo) h hp (by simpa [wfExp] using hwf) hr
+    obtain ⟨p, sem, hnav, hval⟩ := topSym2 (wo := wo) h hp (by simpa [wfExpW] using hwf) hr
     exact ⟨p, sem.mono (fun _ _ h' => h') (fun _ h' => h'.elim) (fun _ h' => h'), hnav, hval⟩
   | tt =>
     unfold compileExpr at h
@@ -286,15 +287,15 @@ theorem topExpr2 {e : BExp} {r : String} {iret : Nat} {s t : CState}
   | and l => exact gen rfl
   | or l => exact gen rfl
   | xor l => exact gen rfl
-  | ite a b c => simp [wfExp] at hwf
-  | imp a b => simp [wfExp] at hwf
+  | ite a b c => simp [wfExpW] at hwf
+  | imp a b => simp [wfExpW] at hwf
 
 /-! ### the statement loop -/
 
 theorem mapQubit_run2 {name : String} {index : Nat} {promote : Bool} {u : Unit} {s s' : CState}
     (h : (mapQubit name index promote).run s = .ok (u, s')) (hg : Good s) :
     s'.qc.gates = s.qc.gates ∧ s'.qc.gatesComputed = s.qc.gatesComputed ∧ s'.qc.marked = s.qc.marked ∧
-    s'.qc.free = s.qc.free ∧ s'.qc.numQubits = s.qc.numQubits ∧ s'.expq = s.expq ∧
+    s'.qc.free = s.qc.free ∧ s'.qc.numQubits = s.qc.numQubits ∧ s'.expq = s.expq ∧ s'.qc.kept = s.qc.kept ∧
     (∀ x ∈ s'.qc.anc, x ∈ s.qc.anc) ∧ (promote = true → index ∉ s'.qc.anc) ∧
     (∀ x ∈ s.qc.anc, x ≠ index → x ∈ s'.qc.anc) ∧
     dictGet? s'.qc.qmap name = some index ∧
@@ -317,19 +318,19 @@ theorem mapQubit_run2 {name : String} {index : Nat} {promote : Bool} {u : Unit} 
       have := modQC_run hm2; subst this
       have := modQC_run hm3; subst this
       have hks : scratchName k = true := hg.anc_named _ (keyByIndex?_mem hk) hia
-      refine ⟨rfl, rfl, rfl, rfl, rfl, rfl, fun x hx => List.mem_of_mem_erase hx, fun _ => hne,
+      refine ⟨rfl, rfl, rfl, rfl, rfl, rfl, rfl, fun x hx => List.mem_of_mem_erase hx, fun _ => hne,
         fun x hx hxi => (List.mem_erase_of_ne hxi).mpr hx, dictGet?_dictSet_self, fun x hx hxn => ?_⟩
       show dictGet? (dictSet _ _ _) _ = _
       rw [dictGet?_dictSet_ne hxn]
       exact dictGet?_filter_ne (by rintro rfl; rw [hks] at hx; cases hx)
     · have := modQC_run hmatch; subst this
-      refine ⟨rfl, rfl, rfl, rfl, rfl, rfl, fun x hx => List.mem_of_mem_erase hx, fun _ => hne,
+      refine ⟨rfl, rfl, rfl, rfl, rfl, rfl, rfl, fun x hx => List.mem_of_mem_erase hx, fun _ => hne,
         fun x hx hxi => (List.mem_erase_of_ne hxi).mpr hx, dictGet?_dictSet_self, fun x hx hxn => ?_⟩
       show dictGet? (dictSet _ _ _) _ = _
       rw [dictGet?_dictSet_ne hxn]
   · next hc =>
     have := modQC_run h; subst this
-    refine ⟨rfl, rfl, rfl, rfl, rfl, rfl, fun x hx => hx, fun hpt hia => hc ?_, fun x hx _ => hx,
+    refine ⟨rfl, rfl, rfl, rfl, rfl, rfl, rfl, fun x hx => hx, fun hpt hia => hc ?_, fun x hx _ => hx,
       dictGet?_dictSet_self, fun x hx hxn => ?_⟩
     · rw [hpt]; simpa using hia
     · show dictGet? (dictSet _ _ _) _ = _
@@ -407,13 +408,337 @@ theorem envOf_cons_self {r : String} {v : Bool} {env : List (String × Bool)} :
     envOf ((r, v) :: env) r = v := by
   simp [envOf, List.find?_cons]
 
-/-- **the statement loop on straight-line definition lists**: the invariant `Inv` is kept by every definition
-(the inline `uncompute` gives back zeroed ancillas: `bennettF`), the scope grows by the defined names, the
+/-- straight-line definition lists over the expression class of the repaired compiler (`slDefs` with `wfExpW`
+for `wfExp`): every left-hand side is a new, not reserved name; every right-hand side reads only arguments and
+earlier left-hand sides -/
+def slDefsW (scope : List String) : List (String × BExp) → Bool
+  | [] => true
+  | (r, e) :: rest => !reservedName r && !scope.contains r && wfExpW scope false e && slDefsW (scope ++ [r]) rest
+
+theorem slDefsW_of_slDefs : ∀ (defs : List (String × BExp)) (scope : List String),
+    slDefs scope defs = true → slDefsW scope defs = true
+  | [], _, _ => rfl
+  | (r, e) :: rest, scope, h => by
+    simp only [slDefs, Bool.and_eq_true] at h
+    simp only [slDefsW, Bool.and_eq_true]
+    exact ⟨⟨h.1.1, wfExpW_of_wfExp e h.1.2⟩, slDefsW_of_slDefs rest _ h.2⟩
+
+/-- what the head of a statement `r = e` (`compile_expr`, `expqmap.remove_symbol`, `expqmap[sym] = iret`,
+`map_qubit`) establishes: `t1` the state after the expression, `t3` the state before the end of the statement -/
+structure Head (scope : List String) (ρ : Env) (σ0 : FState) (e : BExp) (r : String) (s t1 t3 : CState)
+    (iret : Nat) : Prop where
+  hp1 : Pre2 scope ρ σ0 t1
+  sem1 : Sem2 scope σ0 false (CtlQ scope ρ t1) NoQ (· ∈ compKeys e)
+    (fun m => Avail s m ∧ ¬ Avail t1 m ∧ m ≠ iret) s t1
+  hnav1 : ¬ Avail t1 iret
+  hval1 : cur σ0 t1 iret = e.eval ρ
+  hM : ∀ m ∈ t1.qc.marked, Avail s m ∧ ¬ Avail t1 m ∧ m ≠ iret ∧ Tgt t1 m
+  g3 : Good t3
+  gates3 : t3.qc.gates = t1.qc.gates
+  comp3 : t3.qc.gatesComputed = t1.qc.gatesComputed
+  mk3 : t3.qc.marked = t1.qc.marked
+  fr3 : t3.qc.free = t1.qc.free
+  nq3 : t3.qc.numQubits = t1.qc.numQubits
+  kp3 : t3.qc.kept = t1.qc.kept
+  anc3a : ∀ x ∈ t3.qc.anc, x ∈ t1.qc.anc
+  anc3b : iret ∉ t3.qc.anc
+  anc3c : ∀ x ∈ t1.qc.anc, x ≠ iret → x ∈ t3.qc.anc
+  qm3r : dictGet? t3.qc.qmap r = some iret
+  qm3o : ∀ x, scratchName x = false → x ≠ r → dictGet? t3.qc.qmap x = dictGet? t1.qc.qmap x
+  ex3 : ∀ p ∈ t3.expq, (∃ p0 ∈ t1.expq, p0.1 = p.1) ∨ p.1 = .sym r
+
+theorem stmt_head {done : List BExp} {e : BExp} {r : String} {iret : Nat} {u1 u2 u3 : Unit}
+    {s t1 t1' t2 t3 : CState} (hinv : Inv scope ρ σ0 done s)
+    (hr : ∀ m, Known scope m → m ≠ r) (hwf : wfExpW scope false e = true) (hdistE : Distinct (compKeys e))
+    (hcache : ∀ p ∈ s.expq, ∀ c ∈ compKeys e, (p.1 == c) = false)
+    (he : (compileExpr e none (some r)).run s = .ok (iret, t1))
+    (hrs : (expqRemoveSymbol r).run t1 = .ok (u1, t1'))
+    (hset : (expqSet (.sym r) iret).run t1' = .ok (u2, t2))
+    (hmap : (mapQubit r iret true).run t2 = .ok (u3, t3)) :
+    Head scope ρ σ0 e r s t1 t3 iret := by
+  obtain ⟨hp1, sem1, hnav1, hval1⟩ := topExpr2 (wo := false) he hinv.pre hwf hdistE hr hcache
+  have hM : ∀ m ∈ t1.qc.marked, Avail s m ∧ ¬ Avail t1 m ∧ m ≠ iret ∧ Tgt t1 m := by
+    intro m hm
+    rcases sem1.marks m hm with h' | h'
+    · rw [hinv.nomark] at h'; cases h'
+    · exact ⟨h'.1.1, h'.1.2.1, h'.1.2.2, h'.2 rfl⟩
+  have hlt1 : iret < t1.qc.numQubits := notAvail_lt hnav1
+  have hg1' : Good t1' := (expqRemoveSymbol_ok (B := fun _ => True) hrs hp1.good).good
+  have hs1' : t1' = { t1 with expq := t1.expq.filter (fun p => !p.1.syms.contains r) } := by
+    unfold expqRemoveSymbol at hrs
+    exact run_modify_ok.mp hrs
+  have hqc1' : t1'.qc = t1.qc := by rw [hs1']
+  have hex1' : ∀ p ∈ t1'.expq, p ∈ t1.expq := by
+    rw [hs1']; exact fun p hp => (List.mem_filter.mp hp).1
+  obtain ⟨hqc2', hk2⟩ := expqSet_run hset
+  have hqc2 : t2.qc = t1.qc := hqc2'.trans hqc1'
+  have hg2 : Good t2 := (expqSet_ok (B := fun _ => True) hset hg1' (by rw [hqc1']; exact hlt1)).good
+  obtain ⟨m1, m2, m3, m4, m5, m6, mk, m7, m8, m9, m10, m11⟩ := mapQubit_run2 hmap hg2
+  have hg3 : Good t3 := (mapQubit_ok (B := fun _ => True) hmap hg2 (by rw [hqc2]; exact hlt1) trivial
+    (by intro hpf; cases hpf)).1.good
+  refine ⟨hp1, sem1, hnav1, hval1, hM, hg3, by rw [m1, hqc2], by rw [m2, hqc2], by rw [m3, hqc2],
+    by rw [m4, hqc2], by rw [m5, hqc2], by rw [mk, hqc2], fun x hx => by rw [← hqc2]; exact m7 x hx, m8 rfl,
+    fun x hx hxi => m9 x (by rw [hqc2]; exact hx) hxi, m10, fun x hx hxr => by rw [m11 x hx hxr, hqc2], ?_⟩
+  intro p hp
+  rw [m6] at hp
+  rcases hk2 p hp with ⟨p0, hp0, e0⟩ | h'
+  · exact Or.inl ⟨p0, hex1' p0 hp0, e0⟩
+  · exact Or.inr h'
+
+/-- what the end of a statement (the inline `uncompute`, or `keep_ancillas`) establishes about the state `t5`
+the next statement starts from -/
+structure EndOK (σ0 : FState) (t1 t3 t5 : CState) : Prop where
+  good : Good t5
+  avail : ∀ x, Avail t5 x → Avail t1 x ∨ x ∈ t1.qc.marked
+  zero : ∀ q, Avail t5 q → cur σ0 t5 q = false
+  val : ∀ q, q ∉ t1.qc.marked → cur σ0 t5 q = cur σ0 t1 q
+  free : ∀ x ∈ t5.qc.free, x ∈ t1.qc.free ∨ x ∈ t1.qc.marked
+  qmap : t5.qc.qmap = t3.qc.qmap
+  anc : t5.qc.anc = t3.qc.anc
+  nomark : t5.qc.marked = []
+  freeNd : t5.qc.free.Nodup
+  comp : ∀ g ∈ t5.qc.gatesComputed.toList, ¬ Avail t5 g.target
+  expq : ∀ p ∈ t5.expq, p ∈ t3.expq
+  keptNF : ∀ k ∈ t5.qc.kept, k ∉ t5.qc.free
+
+/-- the statement's result is kept to the end: the inline `uncompute` replays, in reverse, the gates whose
+target is marked; `bennettF` shows that the freed ancillas are zero again -/
+theorem stmtEnd_unc {done : List BExp} {e : BExp} {r : String} {iret : Nat} {unc : List Nat} {u : Unit}
+    {s t1 t3 t4 t5 : CState} (hinv : Inv scope ρ σ0 done s) (hd : Head scope ρ σ0 e r s t1 t3 iret)
+    (hunc : uncompute.run t3 = .ok (unc, t4)) (hrm : (expqRemove unc).run t4 = .ok (u, t5)) :
+    EndOK σ0 t1 t3 t5 := by
+  obtain ⟨l, hgl, hcl, htl, hql⟩ := hd.sem1.seg
+  have hp1 := hd.hp1
+  have hM := hd.hM
+  obtain ⟨c1, c2, c3, c4, c5, c6, c7, c8, c9, c10⟩ := uncompute_sem (σ0 := σ0) hunc hd.g3
+  have hg4 : Good t4 := (uncompute_ok (B := fun _ => True) hunc hd.g3).good
+  have hqc5 := expqRemove_run hrm
+  have hg5 : Good t5 := (expqRemove_ok (B := fun _ => True) hrm hg4).good
+  have hex5 : ∀ p ∈ t5.expq, p ∈ t4.expq := by
+    unfold expqRemove at hrm
+    have := run_modify_ok.mp hrm; subst this
+    exact fun p hp => (List.mem_filter.mp hp).1
+  have hmk3 := hd.mk3
+  have hcomp3 : t3.qc.gatesComputed.toList = s.qc.gatesComputed.toList ++ l := by rw [hd.comp3, hcl]
+  have hMc : ∀ q, t1.qc.marked.contains q = true ↔ q ∈ t1.qc.marked := by intro q; simp
+  have hrep : rep t3.qc.marked t3.qc.gatesComputed.toList = rep t1.qc.marked l := by
+    rw [hcomp3, hmk3]; unfold rep; rw [List.filter_append]
+    have : s.qc.gatesComputed.toList.filter (fun g => t1.qc.marked.contains g.target) = [] :=
+      List.filter_eq_nil_iff.mpr (fun g hg hc => hinv.comp g hg (hM _ ((hMc _).mp hc)).1)
+    rw [this, List.nil_append]
+  have hcur31 : cur σ0 t3 = cur σ0 t1 := cur_congr hd.gates3
+  have hok : ∀ g ∈ l, g.cls.isMCXLike = true ∧ g.wires.Nodup ∧ g.wires ≠ [] := by
+    intro g hg
+    have hgo := hp1.good.comp_ok g (by rw [hcl]; exact List.mem_append_right _ hg)
+    refine ⟨hgo.1, hgo.2.1, fun hnil => ?_⟩
+    have := mcx_nq_pos hgo.1
+    rw [← hgo.2.2.2, hnil] at this
+    exact absurd this (Nat.lt_irrefl _)
+  obtain ⟨bM, bN⟩ := bennettF t1.qc.marked (cur σ0 t1) l (cur σ0 s) hok
+    (CtlOK.mono (fun f c hq => by
+      rcases hq with hm | ⟨n, hk, hq', hv⟩
+      · exact Or.inl ((hMc c).mpr hm)
+      · exact Or.inr (by rw [hv, (hp1.tbl n c hk hq').2.2])) l _ (hql rfl)) (cur_of_gates hgl).symm
+  have hcur4 : cur σ0 t4 = runF (rep t1.qc.marked l) (cur σ0 t1) := by rw [c1, hrep, hcur31]
+  have hcur5 : cur σ0 t5 = cur σ0 t4 := by unfold cur; rw [hqc5]
+  have hv4M : ∀ q ∈ t1.qc.marked, cur σ0 t5 q = false := by
+    intro q hq
+    rw [hcur5, hcur4, bM q ((hMc q).mpr hq)]
+    exact hinv.pre.zero q (hM q hq).1
+  have hv4N : ∀ q, q ∉ t1.qc.marked → cur σ0 t5 q = cur σ0 t1 q := by
+    intro q hq
+    rw [hcur5, hcur4]
+    exact bN q (by
+      cases hc : t1.qc.marked.contains q
+      · rfl
+      · exact absurd ((hMc q).mp hc) hq)
+  have hfree5 : ∀ x, x ∈ t5.qc.free ↔ (x ∈ t1.qc.free ∨ x ∈ t1.qc.marked) := by
+    intro x
+    rw [hqc5, c6, hmk3, hd.fr3]
+    exact ⟨mem_foldl_setIns, mem_foldl_setIns_of_mem _ _ x⟩
+  have hnq5 : t5.qc.numQubits = t1.qc.numQubits := by rw [hqc5, c3, hd.nq3]
+  have hav5 : ∀ x, Avail t5 x ↔ (Avail t1 x ∨ x ∈ t1.qc.marked) := by
+    intro x
+    unfold Avail
+    rw [hfree5, hnq5]
+    constructor
+    · rintro ((h' | h') | h')
+      · exact Or.inl (Or.inl h')
+      · exact Or.inr h'
+      · exact Or.inl (Or.inr h')
+    · rintro ((h' | h') | h')
+      · exact Or.inl (Or.inl h')
+      · exact Or.inr h'
+      · exact Or.inl (Or.inr h')
+  refine ⟨hg5, fun x hx => (hav5 x).mp hx, ?_, hv4N, fun x hx => (hfree5 x).mp hx, by rw [hqc5, c2],
+    by rw [hqc5, c4], ?_, by rw [hqc5, c6, hmk3, hd.fr3]; exact foldl_setIns_nodup _ _ hp1.freeNd, ?_,
+    fun p hp => c5 p (hex5 p hp), ?_⟩
+  · intro q hq
+    rcases (hav5 q).mp hq with h' | h'
+    · by_cases hqm : q ∈ t1.qc.marked
+      · exact hv4M q hqm
+      · rw [hv4N q hqm]; exact hp1.zero q h'
+    · exact hv4M q h'
+  · rw [hqc5, c7, hmk3]
+    apply List.filter_eq_nil_iff.mpr
+    intro m hm
+    obtain ⟨g, hg, ht⟩ := (hM m hm).2.2.2
+    have : g.target ∈ unc := c8 g (by rw [hd.comp3]; exact hg) (by rw [hmk3, ht]; exact (hMc m).mpr hm)
+    rw [ht] at this
+    simp [this]
+  · intro g hg
+    rw [hqc5, c9, hmk3] at hg
+    obtain ⟨hg1, hg2⟩ := List.mem_filter.mp hg
+    have hnM : g.target ∉ t1.qc.marked := fun hm => by
+      rw [(hMc _).mpr hm] at hg2; cases hg2
+    have hna1 : ¬ Avail t1 g.target := by
+      rw [hcomp3] at hg1
+      rcases List.mem_append.mp hg1 with h' | h'
+      · exact fun ha => hinv.comp g h' (hd.sem1.avail _ ha)
+      · exact htl g h'
+    exact fun ha => ((hav5 _).mp ha).elim hna1 hnM
+  · intro k hk hf
+    rw [hqc5, c10, hd.kp3] at hk
+    rcases (hfree5 k).mp hf with h' | h'
+    · exact hp1.keptNF k hk h'
+    · exact hinv.pre.notKept (hM k h').1 (by rw [← hd.sem1.kkeep]; exact hk)
+
+/-- the statement's result is undone by the final `uncompute_all`: `keep_ancillas` leaves every qubit as it
+is, moves the ancillas in use to the kept set and drops the marks -/
+theorem stmtEnd_keep {done : List BExp} {e : BExp} {r : String} {iret : Nat} {u : Unit}
+    {s t1 t3 t5 : CState} (hinv : Inv scope ρ σ0 done s) (hd : Head scope ρ σ0 e r s t1 t3 iret)
+    (hk : keepAncillas.run t3 = .ok (u, t5)) : EndOK σ0 t1 t3 t5 := by
+  obtain ⟨l, hgl, hcl, htl, _⟩ := hd.sem1.seg
+  have hg5 : Good t5 := (keepAncillas_ok (B := fun _ => True) hk hd.g3).good
+  unfold keepAncillas at hk
+  have := modQC_run hk; subst this
+  have hav : ∀ x, Avail { t3 with qc := { t3.qc with
+      kept := (t3.qc.anc.filter (fun a => !t3.qc.free.contains a)).foldl setIns t3.qc.kept, marked := [] } } x ↔
+      Avail t1 x := by
+    intro x; unfold Avail; simp only; rw [hd.fr3, hd.nq3]
+  have hcur : ∀ q, cur σ0 { t3 with qc := { t3.qc with
+      kept := (t3.qc.anc.filter (fun a => !t3.qc.free.contains a)).foldl setIns t3.qc.kept, marked := [] } } q =
+      cur σ0 t1 q := by
+    intro q
+    have : cur σ0 { t3 with qc := { t3.qc with
+      kept := (t3.qc.anc.filter (fun a => !t3.qc.free.contains a)).foldl setIns t3.qc.kept, marked := [] } } =
+      cur σ0 t3 := cur_congr rfl
+    rw [this, cur_congr hd.gates3]
+  refine ⟨hg5, fun x hx => Or.inl ((hav x).mp hx), fun q hq => by rw [hcur]; exact hd.hp1.zero q ((hav q).mp hq),
+    fun q _ => hcur q, fun x hx => Or.inl (by rw [← hd.fr3]; exact hx), rfl, rfl, rfl,
+    by show t3.qc.free.Nodup; rw [hd.fr3]; exact hd.hp1.freeNd, ?_, fun p hp => hp, ?_⟩
+  · intro g hg ha
+    have hg' : g ∈ s.qc.gatesComputed.toList ++ l := by
+      rw [← hcl, ← hd.comp3]; exact hg
+    have ha1 : Avail t1 g.target := (hav _).mp ha
+    rcases List.mem_append.mp hg' with h' | h'
+    · exact hinv.comp g h' (hd.sem1.avail _ ha1)
+    · exact htl g h' ha1
+  · intro k hk hf
+    have hf3 : k ∈ t3.qc.free := hf
+    rcases mem_foldl_setIns (show k ∈ (t3.qc.anc.filter (fun a => !t3.qc.free.contains a)).foldl setIns t3.qc.kept
+      from hk) with h' | h'
+    · exact hd.hp1.keptNF k (by rw [← hd.kp3]; exact h') (by rw [← hd.fr3]; exact hf3)
+    · have := (List.mem_filter.mp h').2
+      simp only [Bool.not_eq_true', List.contains_eq_mem, decide_eq_false_iff_not] at this
+      exact this hf3
+
+/-- the invariant for the scope extended by the defined name -/
+theorem Inv.step {done : List BExp} {env : List (String × Bool)} {e : BExp} {r : String} {iret : Nat}
+    {s t1 t3 t5 : CState} (hinv : Inv scope (envOf env) σ0 done s)
+    (hd : Head scope (envOf env) σ0 e r s t1 t3 iret) (he : EndOK σ0 t1 t3 t5)
+    (hres : reservedName r = false) (hnr : r ∉ scope) :
+    Inv (scope ++ [r]) (envOf ((r, e.eval (envOf env)) :: env)) σ0 (done ++ compKeys e) t5 := by
+  have hp1 := hd.hp1
+  have hrs : scratchName r = false := by
+    simp only [reservedName, Bool.or_eq_false_iff] at hres; exact hres.2
+  have hrT : r ≠ "TRUE" ∧ r ≠ "FALSE" := by
+    simp only [reservedName, Bool.or_eq_false_iff, beq_eq_false_iff_ne, ne_eq] at hres
+    exact ⟨hres.1.2, hres.1.1⟩
+  have hr : ∀ m, Known scope m → m ≠ r := by
+    rintro m (hm | rfl | rfl)
+    · rintro rfl; exact hnr hm
+    · exact fun e => hrT.1 e.symm
+    · exact fun e => hrT.2 e.symm
+  have hiretM : iret ∉ t1.qc.marked := fun hm => (hd.hM iret hm).2.2.1 rfl
+  have hiretF : iret ∉ t5.qc.free := by
+    intro hf
+    rcases he.free _ hf with h' | h'
+    · exact hd.hnav1 (Or.inl h')
+    · exact hiretM h'
+  have hρ : ∀ n, n ≠ r → envOf ((r, e.eval (envOf env)) :: env) n = envOf env n := fun n hn => envOf_cons_ne hn
+  have hkv : ∀ n, n ≠ r → kval (envOf ((r, e.eval (envOf env)) :: env)) n = kval (envOf env) n := by
+    intro n hn; unfold kval; rw [hρ n hn]
+  have hkvr : kval (envOf ((r, e.eval (envOf env)) :: env)) r = e.eval (envOf env) := by
+    unfold kval; rw [if_neg hrT.1, if_neg hrT.2, envOf_cons_self]
+  have hqmK : ∀ n, Known scope n → dictGet? t5.qc.qmap n = dictGet? t1.qc.qmap n := by
+    intro n hk
+    rw [he.qmap, hd.qm3o n (by
+      rcases hk with hk | rfl | rfl
+      · have := hinv.pre.scopeOK n hk
+        simp only [reservedName, Bool.or_eq_false_iff] at this; exact this.2
+      · decide +kernel
+      · decide +kernel) (hr n hk)]
+  refine ⟨⟨he.good, he.zero, ?_, ?_, ?_, he.freeNd, ?_, ?_, he.keptNF⟩, he.nomark, he.comp, ?_⟩
+  · -- known names
+    intro n q hk hq
+    have hcase : n = r ∨ Known scope n := by
+      rcases hk with hk | hk | hk
+      · rcases List.mem_append.mp hk with hk | hk
+        · exact Or.inr (Or.inl hk)
+        · exact Or.inl (by simpa using hk)
+      · exact Or.inr (Or.inr (Or.inl hk))
+      · exact Or.inr (Or.inr (Or.inr hk))
+    rcases hcase with rfl | hk'
+    · rw [he.qmap, hd.qm3r] at hq
+      cases hq
+      exact ⟨hiretF, by rw [he.anc]; exact hd.anc3b, by rw [he.val _ hiretM, hkvr]; exact hd.hval1⟩
+    · rw [hqmK n hk'] at hq
+      obtain ⟨t1f, t1a, t1v⟩ := hp1.tbl n q hk' hq
+      have hqM : q ∉ t1.qc.marked := fun hm => t1a (hp1.mkAnc q hm)
+      refine ⟨fun hf => ?_, fun ha => t1a (hd.anc3a q (by rw [← he.anc]; exact ha)), ?_⟩
+      · rcases he.free _ hf with h' | h'
+        · exact t1f h'
+        · exact hqM h'
+      · rw [he.val q hqM, hkv n (hr n hk')]; exact t1v
+  · -- names in scope are bound
+    intro n hn
+    rcases List.mem_append.mp hn with hn | hn
+    · obtain ⟨q, hq⟩ := hp1.bound n hn
+      exact ⟨q, by rw [hqmK n (Or.inl hn)]; exact hq⟩
+    · have : n = r := by simpa using hn
+      rw [this]; exact ⟨iret, by rw [he.qmap]; exact hd.qm3r⟩
+  · intro n hn
+    rcases List.mem_append.mp hn with hn | hn
+    · exact hinv.pre.scopeOK n hn
+    · have : n = r := by simpa using hn
+      rw [this]; exact hres
+  · intro q hq
+    have hq1 : q ∈ t1.qc.anc := by
+      rcases he.free q hq with h' | h'
+      · exact hp1.freeAnc q h'
+      · exact hp1.mkAnc q h'
+    have hqi : q ≠ iret := by rintro rfl; exact hiretF hq
+    rw [he.anc]; exact hd.anc3c q hq1 hqi
+  · intro m hm; rw [he.nomark] at hm; cases hm
+  · -- cache keys
+    intro p hp
+    rcases hd.ex3 p (he.expq p hp) with ⟨p0, hp0, e0⟩ | h'
+    · rcases hd.sem1.keys p0 hp0 with ⟨p00, hp00, e00⟩ | h'
+      · rw [← e0, ← e00]
+        exact (hinv.cache p00 hp00).imp id (fun h' => List.mem_append_left _ h')
+      · rw [← e0]; exact Or.inr (List.mem_append_right _ h')
+    · rw [h']; exact Or.inl rfl
+
+/-- **the statement loop on straight-line definition lists**, for every return list and with or without final
+uncomputation: the invariant `Inv` is kept by every definition (the inline `uncompute` gives back zeroed
+ancillas: `bennettF`; `keep_ancillas` leaves the free set alone), the scope grows by the defined names, the
 environment follows `evalDefs` -/
-theorem defs_sem : ∀ (defs : List (String × BExp)) (scope : List String) (env : List (String × Bool))
+theorem defs_sem {retBits : Option (List String)} {doUnc : Bool} :
+    ∀ (defs : List (String × BExp)) (scope : List String) (env : List (String × Bool))
     (done : List BExp) {u : Unit} {s s' : CState},
-    (compileDefs defs).run s = .ok (u, s') → Inv scope (envOf env) σ0 done s →
-    slDefs scope defs = true → Distinct (done ++ defs.flatMap (fun p => compKeys p.2)) →
+    (compileDefs retBits doUnc defs).run s = .ok (u, s') → Inv scope (envOf env) σ0 done s →
+    slDefsW scope defs = true → Distinct (done ++ defs.flatMap (fun p => compKeys p.2)) →
     ∃ scope' done', Inv scope' (envOf (evalDefs defs env)) σ0 done' s' ∧ (∀ n ∈ scope, n ∈ scope') ∧
       (∀ p ∈ defs, p.1 ∈ scope')
   | [], scope, env, done, u, s, s', h, hinv, _, _ => by
@@ -422,17 +747,13 @@ theorem defs_sem : ∀ (defs : List (String × BExp)) (scope : List String) (env
     exact ⟨scope, done, hinv, fun n hn => hn, fun p hp => absurd hp List.not_mem_nil⟩
   | (r, e) :: rest, scope, env, done, u, s, s', h, hinv, hsl, hdist => by
     unfold compileDefs at h
-    dsimp only at h
     obtain ⟨iret, t1, he, k1⟩ := run_bind_ok.mp h
-    obtain ⟨u4, t2, hset, k2⟩ := run_bind_ok.mp k1
+    obtain ⟨u3, t1', hrs, k1'⟩ := run_bind_ok.mp k1
+    obtain ⟨u4, t2, hset, k2⟩ := run_bind_ok.mp k1'
     obtain ⟨u5, t3, hmap, k3⟩ := run_bind_ok.mp k2
-    obtain ⟨unc, t4, hunc, k4⟩ := run_bind_ok.mp k3
-    obtain ⟨u6, t5, hrm, k5⟩ := run_bind_ok.mp k4
     -- the class
-    simp only [slDefs, Bool.and_eq_true, Bool.not_eq_true', List.contains_eq_mem, decide_eq_false_iff_not] at hsl
+    simp only [slDefsW, Bool.and_eq_true, Bool.not_eq_true', List.contains_eq_mem, decide_eq_false_iff_not] at hsl
     obtain ⟨⟨⟨hres, hnr⟩, hwf⟩, hrest⟩ := hsl
-    have hrs : scratchName r = false := by
-      simp only [reservedName, Bool.or_eq_false_iff] at hres; exact hres.2
     have hrT : r ≠ "TRUE" ∧ r ≠ "FALSE" := by
       simp only [reservedName, Bool.or_eq_false_iff, beq_eq_false_iff_ne, ne_eq] at hres
       exact ⟨hres.1.2, hres.1.1⟩
@@ -450,198 +771,24 @@ theorem defs_sem : ∀ (defs : List (String × BExp)) (scope : List String) (env
       rcases hinv.cache p hp with h' | h'
       · exact beq_sym_false h' (compKeys_notSym e c hc)
       · exact hd1.2.2 p.1 h' c (List.mem_append_left _ hc)
-    obtain ⟨hp1, sem1, hnav1, hval1⟩ := topExpr2 (wo := false) he hinv.pre hwf hdistE hr hcache
-    obtain ⟨l, hgl, hcl, htl, hql⟩ := sem1.seg
-    have hM : ∀ m ∈ t1.qc.marked, Avail s m ∧ ¬ Avail t1 m ∧ m ≠ iret ∧ Tgt t1 m := by
-      intro m hm
-      rcases sem1.marks m hm with h' | h'
-      · rw [hinv.nomark] at h'; cases h'
-      · exact ⟨h'.1.1, h'.1.2.1, h'.1.2.2, h'.2 rfl⟩
-    -- `expqmap[sym] = iret`, `map_qubit`
-    obtain ⟨hqc2, hk2⟩ := expqSet_run hset
-    have hlt1 : iret < t1.qc.numQubits := notAvail_lt hnav1
-    have hg2 : Good t2 := (expqSet_ok (B := fun _ => True) hset hp1.good hlt1).good
-    have hprom : (!r.startsWith "__") = true := by
-      simp only [scratchName, Bool.or_eq_false_iff] at hrs
-      simp [hrs.1]
-    obtain ⟨m1, m2, m3, m4, m5, m6, m7, m8, m9, m10, m11⟩ := mapQubit_run2 hmap hg2
-    have hg3 : Good t3 := (mapQubit_ok (B := fun _ => True) hmap hg2 (by rw [hqc2]; exact hlt1) trivial
-      (by intro hpf; rw [hprom] at hpf; cases hpf)).1.good
-    -- the inline `uncompute`
-    obtain ⟨c1, c2, c3, c4, c5, c6, c7, c8, c9⟩ := uncompute_sem (σ0 := σ0) hunc hg3
-    have hg4 : Good t4 := (uncompute_ok (B := fun _ => True) hunc hg3).good
-    have hqc5 := expqRemove_run hrm
-    have hg5 : Good t5 := (expqRemove_ok (B := fun _ => True) hrm hg4).good
-    have hex5 : ∀ p ∈ t5.expq, p ∈ t4.expq := by
-      unfold expqRemove at hrm
-      have := run_modify_ok.mp hrm; subst this
-      exact fun p hp => (List.mem_filter.mp hp).1
-    have hmk3 : t3.qc.marked = t1.qc.marked := by rw [m3, hqc2]
-    have hcomp3 : t3.qc.gatesComputed.toList = s.qc.gatesComputed.toList ++ l := by rw [m2, hqc2, hcl]
-    have hMc : ∀ q, t1.qc.marked.contains q = true ↔ q ∈ t1.qc.marked := by intro q; simp
-    have hrep : rep t3.qc.marked t3.qc.gatesComputed.toList = rep t1.qc.marked l := by
-      rw [hcomp3, hmk3]; unfold rep; rw [List.filter_append]
-      have : s.qc.gatesComputed.toList.filter (fun g => t1.qc.marked.contains g.target) = [] :=
-        List.filter_eq_nil_iff.mpr (fun g hg hc => hinv.comp g hg (hM _ ((hMc _).mp hc)).1)
-      rw [this, List.nil_append]
-    have hcur31 : cur σ0 t3 = cur σ0 t1 := cur_congr (m1.trans (by rw [hqc2]))
-    have hok : ∀ g ∈ l, g.cls.isMCXLike = true ∧ g.wires.Nodup ∧ g.wires ≠ [] := by
-      intro g hg
-      have hgo := hp1.good.comp_ok g (by rw [hcl]; exact List.mem_append_right _ hg)
-      refine ⟨hgo.1, hgo.2.1, fun hnil => ?_⟩
-      have := mcx_nq_pos hgo.1
-      rw [← hgo.2.2.2, hnil] at this
-      exact absurd this (Nat.lt_irrefl _)
-    obtain ⟨bM, bN⟩ := bennettF t1.qc.marked (cur σ0 t1) l (cur σ0 s) hok
-      (CtlOK.mono (fun f c hq => by
-        rcases hq with hm | ⟨n, hk, hq', hv⟩
-        · exact Or.inl ((hMc c).mpr hm)
-        · exact Or.inr (by rw [hv, (hp1.tbl n c hk hq').2.2])) l _ (hql rfl)) (cur_of_gates hgl).symm
-    have hcur4 : cur σ0 t4 = runF (rep t1.qc.marked l) (cur σ0 t1) := by rw [c1, hrep, hcur31]
-    have hcur5 : cur σ0 t5 = cur σ0 t4 := by unfold cur; rw [hqc5]
-    have hv4M : ∀ q ∈ t1.qc.marked, cur σ0 t5 q = false := by
-      intro q hq
-      rw [hcur5, hcur4, bM q ((hMc q).mpr hq)]
-      exact hinv.pre.zero q (hM q hq).1
-    have hv4N : ∀ q, q ∉ t1.qc.marked → cur σ0 t5 q = cur σ0 t1 q := by
-      intro q hq
-      rw [hcur5, hcur4]
-      exact bN q (by
-        cases hc : t1.qc.marked.contains q
-        · rfl
-        · exact absurd ((hMc q).mp hc) hq)
-    -- bookkeeping of the final state
-    have hfree5 : ∀ x, x ∈ t5.qc.free ↔ (x ∈ t1.qc.free ∨ x ∈ t1.qc.marked) := by
-      intro x
-      rw [hqc5, c6, hmk3, m4, hqc2]
-      exact ⟨mem_foldl_setIns, mem_foldl_setIns_of_mem _ _ x⟩
-    have hnq5 : t5.qc.numQubits = t1.qc.numQubits := by rw [hqc5, c3, m5, hqc2]
-    have hqm5 : t5.qc.qmap = t3.qc.qmap := by rw [hqc5, c2]
-    have hanc5 : t5.qc.anc = t3.qc.anc := by rw [hqc5, c4]
-    have hav5 : ∀ x, Avail t5 x ↔ (Avail t1 x ∨ x ∈ t1.qc.marked) := by
-      intro x
-      unfold Avail
-      rw [hfree5, hnq5]
-      constructor
-      · rintro ((h' | h') | h')
-        · exact Or.inl (Or.inl h')
-        · exact Or.inr h'
-        · exact Or.inl (Or.inr h')
-      · rintro ((h' | h') | h')
-        · exact Or.inl (Or.inl h')
-        · exact Or.inr h'
-        · exact Or.inl (Or.inr h')
-    have hiretM : iret ∉ t1.qc.marked := fun hm => (hM iret hm).2.2.1 rfl
-    have hmk5 : t5.qc.marked = [] := by
-      rw [hqc5, c7, hmk3]
-      apply List.filter_eq_nil_iff.mpr
-      intro m hm
-      obtain ⟨g, hg, ht⟩ := (hM m hm).2.2.2
-      have : g.target ∈ unc := c8 g (by rw [m2, hqc2]; exact hg) (by rw [hmk3, ht]; exact (hMc m).mpr hm)
-      rw [ht] at this
-      simp [this]
-    -- the new scope and environment
-    have hρ : ∀ n, n ≠ r → envOf ((r, e.eval (envOf env)) :: env) n = envOf env n := fun n hn => envOf_cons_ne hn
-    have hkv : ∀ n, n ≠ r → kval (envOf ((r, e.eval (envOf env)) :: env)) n = kval (envOf env) n := by
-      intro n hn; unfold kval; rw [hρ n hn]
-    have hkvr : kval (envOf ((r, e.eval (envOf env)) :: env)) r = e.eval (envOf env) := by
-      unfold kval; rw [if_neg hrT.1, if_neg hrT.2, envOf_cons_self]
-    have hqmK : ∀ n, Known scope n → dictGet? t5.qc.qmap n = dictGet? t1.qc.qmap n := by
-      intro n hk
-      rw [hqm5, m11 n (by
-        rcases hk with hk | rfl | rfl
-        · have := hinv.pre.scopeOK n hk
-          simp only [reservedName, Bool.or_eq_false_iff] at this; exact this.2
-        · decide +kernel
-        · decide +kernel) (hr n hk), hqc2]
-    have hinv' : Inv (scope ++ [r]) (envOf ((r, e.eval (envOf env)) :: env)) σ0 (done ++ compKeys e) t5 := by
-      refine ⟨⟨hg5, ?_, ?_, ?_, ?_, ?_, ?_, ?_⟩, hmk5, ?_, ?_⟩
-      · -- scratch space zero
-        intro q hq
-        rcases (hav5 q).mp hq with h' | h'
-        · by_cases hqm : q ∈ t1.qc.marked
-          · exact hv4M q hqm
-          · rw [hv4N q hqm]; exact hp1.zero q h'
-        · exact hv4M q h'
-      · -- known names
-        intro n q hk hq
-        have hcase : n = r ∨ Known scope n := by
-          rcases hk with hk | hk | hk
-          · rcases List.mem_append.mp hk with hk | hk
-            · exact Or.inr (Or.inl hk)
-            · exact Or.inl (by simpa using hk)
-          · exact Or.inr (Or.inr (Or.inl hk))
-          · exact Or.inr (Or.inr (Or.inr hk))
-        rcases hcase with rfl | hk'
-        · rw [hqm5, m10] at hq
-          cases hq
-          refine ⟨fun hf => ?_, by rw [hanc5]; exact m8 hprom, by rw [hv4N _ hiretM, hkvr]; exact hval1⟩
-          rcases (hfree5 _).mp hf with h' | h'
-          · exact hnav1 (Or.inl h')
-          · exact hiretM h'
-        · rw [hqmK n hk'] at hq
-          obtain ⟨t1f, t1a, t1v⟩ := hp1.tbl n q hk' hq
-          have hqM : q ∉ t1.qc.marked := fun hm => t1a (hp1.mkAnc q hm)
-          refine ⟨fun hf => ?_, fun ha => t1a (by rw [← hqc2]; exact m7 q (by rw [← hanc5]; exact ha)), ?_⟩
-          · rcases (hfree5 _).mp hf with h' | h'
-            · exact t1f h'
-            · exact hqM h'
-          · rw [hv4N q hqM, hkv n (hr n hk')]; exact t1v
-      · -- names in scope are bound
-        intro n hn
-        rcases List.mem_append.mp hn with hn | hn
-        · obtain ⟨q, hq⟩ := hp1.bound n hn
-          exact ⟨q, by rw [hqmK n (Or.inl hn)]; exact hq⟩
-        · have : n = r := by simpa using hn
-          rw [this]; exact ⟨iret, by rw [hqm5]; exact m10⟩
-      · intro n hn
-        rcases List.mem_append.mp hn with hn | hn
-        · exact hinv.pre.scopeOK n hn
-        · have : n = r := by simpa using hn
-          rw [this]; exact hres
-      · rw [hqc5, c6, hmk3, m4, hqc2]; exact foldl_setIns_nodup _ _ hp1.freeNd
-      · intro q hq
-        have hq1 : q ∈ t1.qc.anc := by
-          rcases (hfree5 q).mp hq with h' | h'
-          · exact hp1.freeAnc q h'
-          · exact hp1.mkAnc q h'
-        have hqi : q ≠ iret := by
-          rintro rfl
-          rcases (hfree5 _).mp hq with h' | h'
-          · exact hnav1 (Or.inl h')
-          · exact hiretM h'
-        rw [hanc5]; exact m9 q (by rw [hqc2]; exact hq1) hqi
-      · intro m hm; rw [hmk5] at hm; cases hm
-      · -- gates_computed targets allocated qubits
-        intro g hg
-        rw [hqc5, c9, hmk3] at hg
-        obtain ⟨hg1, hg2⟩ := List.mem_filter.mp hg
-        have hnM : g.target ∉ t1.qc.marked := fun hm => by
-          rw [(hMc _).mpr hm] at hg2; cases hg2
-        have hna1 : ¬ Avail t1 g.target := by
-          rw [hcomp3] at hg1
-          rcases List.mem_append.mp hg1 with h' | h'
-          · exact fun ha => hinv.comp g h' (sem1.avail _ ha)
-          · exact htl g h'
-        exact fun ha => ((hav5 _).mp ha).elim hna1 hnM
-      · -- cache keys
-        intro p hp
-        have hp4 := hex5 p hp
-        have hp3 := c5 p hp4
-        rw [m6] at hp3
-        rcases hk2 p hp3 with ⟨p0, hp0, e0⟩ | h'
-        · rcases sem1.keys p0 hp0 with ⟨p00, hp00, e00⟩ | h'
-          · rw [← e0, ← e00]
-            exact (hinv.cache p00 hp00).imp id (fun h' => List.mem_append_left _ h')
-          · rw [← e0]; exact Or.inr (List.mem_append_right _ h')
-        · rw [h']; exact Or.inl rfl
-    obtain ⟨scope', done', hfin, hsub, hmem⟩ := defs_sem rest (scope ++ [r]) ((r, e.eval (envOf env)) :: env)
-      (done ++ compKeys e) k5 hinv' hrest (by
-        rw [List.append_assoc]; exact hd0)
-    refine ⟨scope', done', hfin, fun n hn => hsub n (List.mem_append_left _ hn), fun p hp => ?_⟩
-    rcases List.mem_cons.mp hp with rfl | hp
-    · exact hsub r (by simp)
-    · exact hmem p hp
+    have hd := stmt_head hinv hr hwf hdistE hcache he hrs hset hmap
+    have fin : ∀ {t5 : CState}, EndOK σ0 t1 t3 t5 → (compileDefs retBits doUnc rest).run t5 = .ok (u, s') →
+        ∃ scope' done', Inv scope' (envOf (evalDefs ((r, e) :: rest) env)) σ0 done' s' ∧
+          (∀ n ∈ scope, n ∈ scope') ∧ (∀ p ∈ (r, e) :: rest, p.1 ∈ scope') := by
+      intro t5 hend k5
+      obtain ⟨scope', done', hfin, hsub, hmem⟩ := defs_sem rest (scope ++ [r]) ((r, e.eval (envOf env)) :: env)
+        (done ++ compKeys e) k5 (hinv.step hd hend hres hnr) hrest (by
+          rw [List.append_assoc]; exact hd0)
+      refine ⟨scope', done', hfin, fun n hn => hsub n (List.mem_append_left _ hn), fun p hp => ?_⟩
+      rcases List.mem_cons.mp hp with rfl | hp
+      · exact hsub r (by simp)
+      · exact hmem p hp
+    rcases run_ite_ok.mp k3 with ⟨_, k3⟩ | ⟨_, k3⟩
+    · obtain ⟨unc, t4, hunc, k4⟩ := run_bind_ok.mp k3
+      obtain ⟨u6, t5, hrm, k5⟩ := run_bind_ok.mp k4
+      exact fin (stmtEnd_unc hinv hd hunc hrm) k5
+    · obtain ⟨u6, t5, hk, k5⟩ := run_bind_ok.mp k3
+      exact fin (stmtEnd_keep hinv hd hk) k5
 
 /-! ### `compile` -/
 
@@ -675,7 +822,7 @@ theorem init_pre2 {inputs : List String} {cs : List Nat} {x : List Bool} {u : Un
       s1.qc.gatesComputed.toList = [] ∧ s1.expq = [] ∧ s1.qc.numQubits = inputs.length := by
   have hg0 : Good { choices := cs, inputs := inputs } := good_init cs inputs
   obtain ⟨st1, hn1, _, hpos⟩ := addInputs_ok inputs hin hg0
-  obtain ⟨ha1, hf1, hm1⟩ := addInputs_scratch inputs hin
+  obtain ⟨ha1, hf1, hm1, hk1⟩ := addInputs_scratch inputs hin
   obtain ⟨hga1, hex1, _⟩ := addInputs_quiet inputs hin
   obtain ⟨hkeys, hgc1⟩ := addInputs_keys inputs hin
   have hn1' : s1.qc.numQubits = inputs.length := by rw [hn1]; simp
@@ -691,7 +838,8 @@ theorem init_pre2 {inputs : List String} {cs : List Nat} {x : List Bool} {u : Un
     simpa using this
   refine ⟨⟨st1.good, ?_, ?_, ?_, hfresh, (by rw [hf1]; exact List.nodup_nil),
     (by rw [hf1]; intro q hq; exact absurd hq List.not_mem_nil),
-    (by rw [hm1]; intro q hq; exact absurd hq List.not_mem_nil)⟩, hm1, (by rw [hgc1]), hex1, hn1'⟩
+    (by rw [hm1]; intro q hq; exact absurd hq List.not_mem_nil),
+    (by rw [hk1]; intro q hq; exact absurd hq List.not_mem_nil)⟩, hm1, (by rw [hgc1]), hex1, hn1'⟩
   · intro q hq
     rw [hcur]
     have hge : inputs.length ≤ q := by
@@ -716,15 +864,72 @@ theorem init_pre2 {inputs : List String} {cs : List Nat} {x : List Bool} {u : Un
     obtain ⟨i, hi⟩ := idx_of_mem hn
     exact ⟨i, hbind i n hi⟩
 
-/-- **straight-line definition lists, final uncomputation off**: after every successful run of `compile` the
-qubit mapped to a defined name ends with the value the reference semantics `evalDefs` gives the name, on
-every input -/
+/-- the end of `compile`: `remove_identities`, then (final uncomputation on) `uncompute_all`, which appends
+only gates whose target is not the qubit of a requested return bit -/
+theorem compile_tail {rets : List String} {unc : Bool} {u : Unit} {s2 s : CState}
+    (h : StateT.run (do
+        removeIdentities
+        match (some rets : Option (List String)) with
+        | some rb =>
+          if unc = true then do
+            let qc ← getQC
+            uncomputeAll (rb.filterMap (dictGet? qc.qmap))
+          else pure ()
+        | none => pure () : M Unit) s2 = .ok (u, s)) :
+    ∃ extra, s.qc.gates.toList = removeIdentitiesList s2.qc.gates.toList ++ extra ∧
+      (∀ g ∈ extra, unc = true ∧ (rets.filterMap (dictGet? s2.qc.qmap)).contains g.target = false) ∧
+      s.qc.qmap = s2.qc.qmap ∧ s.qc.numQubits = s2.qc.numQubits := by
+  obtain ⟨u3, s3, hrem, h4⟩ := run_bind_ok.mp h
+  obtain ⟨hrg, hrq, hrn⟩ := removeIdentities_run hrem
+  dsimp only at h4
+  rcases run_ite_ok.mp h4 with ⟨hc, h4⟩ | ⟨_, h4⟩
+  · obtain ⟨qc, s4, hq, h5⟩ := run_bind_ok.mp h4
+    obtain ⟨rfl, rfl⟩ := getQC_run hq
+    obtain ⟨extra, e1, e2, e3, e4⟩ := uncomputeAll_gates h5
+    exact ⟨extra, by rw [e1, hrg], fun g hg => ⟨hc, by rw [← hrq]; exact e2 g hg⟩, e3.trans hrq, e4.trans hrn⟩
+  · obtain ⟨_, rfl⟩ := run_pure_ok.mp h4
+    exact ⟨[], by rw [hrg]; simp, by simp, hrq, hrn⟩
+
+/-- the value of a qubit after `compile`, from its value after the statement loop: no gate appended by the
+final `uncompute_all` targets it -/
+theorem compile_tail_val {x : List Bool} {rets : List String} {unc : Bool} {extra : List AGate} {s2 s : CState}
+    {q : Nat} (hgs : Good s) (hg2 : Good s2)
+    (f1 : s.qc.gates.toList = removeIdentitiesList s2.qc.gates.toList ++ extra)
+    (f2 : ∀ g ∈ extra, unc = true ∧ (rets.filterMap (dictGet? s2.qc.qmap)).contains g.target = false)
+    (f4 : s.qc.numQubits = s2.qc.numQubits) (hlen : x.length ≤ s2.qc.numQubits)
+    (hq : unc = true → q ∈ rets.filterMap (dictGet? s2.qc.qmap)) :
+    (runClassical s.qc.gates.toList (initState x s.qc.numQubits)).getD q false =
+      cur (toF (initState x s.qc.numQubits)) s2 q := by
+  rw [f1, runClassical_append, removeIdentitiesList_sound _ (fun g hg => (hg2.gates_ok g hg).2.1),
+    ← runClassical_append]
+  have hlen' : (initState x s.qc.numQubits).length = s.qc.numQubits :=
+    initState_length x _ (by rw [f4]; exact hlen)
+  have hspec := congrFun (runF_spec (s2.qc.gates.toList ++ extra) (initState x s.qc.numQubits) (by
+    intro g hg w hw
+    rw [hlen']
+    rcases List.mem_append.mp hg with hg | hg
+    · rw [f4]; exact (hg2.gates_ok g hg).2.2.1 w hw
+    · exact (hgs.gates_ok g (by rw [f1]; exact List.mem_append_right _ hg)).2.2.1 w hw)) q
+  refine hspec.trans ?_
+  rw [runF_append, untargeted_runF]
+  · rfl
+  · intro g hg hlast
+    have ht : g.target = q := by unfold AGate.target; rw [hlast]; rfl
+    obtain ⟨hu, hk⟩ := f2 g hg
+    rw [ht] at hk
+    have : (rets.filterMap (dictGet? s2.qc.qmap)).contains q = true := by simpa using hq hu
+    rw [hk] at this; cases this
+
+/-- **straight-line definition lists, final uncomputation on or off**: after every successful run of `compile`
+the qubit mapped to a defined name that is a requested return bit (any defined name when the final
+uncomputation is off) ends with the value the reference semantics `evalDefs` gives the name, on every input -/
 theorem compile_named_sem {inputs : List String} {defs : List (String × BExp)} {rets : List String}
-    {cs : List Nat} {s : CState}
-    (h : (compile inputs defs (some rets) false).run { choices := cs } = .ok ((), s))
+    {unc : Bool} {cs : List Nat} {s : CState}
+    (h : (compile inputs defs (some rets) unc).run { choices := cs } = .ok ((), s))
     (hnd : inputs.Nodup) (hfresh : ∀ n ∈ inputs, reservedName n = false)
-    (hsl : slDefs inputs defs = true) (hdist : Distinct (defs.flatMap (fun p => compKeys p.2)))
-    (x : List Bool) (hx : x.length = inputs.length) (r : String) (hr : ∃ p ∈ defs, p.1 = r) :
+    (hsl : slDefsW inputs defs = true) (hdist : Distinct (defs.flatMap (fun p => compKeys p.2)))
+    (x : List Bool) (hx : x.length = inputs.length) (r : String) (hr : ∃ p ∈ defs, p.1 = r)
+    (hrr : unc = true → r ∈ rets) :
     ∃ q, dictGet? s.qc.qmap r = some q ∧
       (runClassical s.qc.gates.toList (initState x s.qc.numQubits)).getD q false =
         envOf (evalDefs defs (inputs.zip x)) r := by
@@ -734,14 +939,7 @@ theorem compile_named_sem {inputs : List String} {defs : List (String × BExp)} 
   have := run_modify_ok.mp hmod; subst this
   obtain ⟨u1, s1, hin, h2⟩ := run_bind_ok.mp h1
   obtain ⟨u2, s2, hdefs, h3⟩ := run_bind_ok.mp h2
-  obtain ⟨u3, s3, hrem, h4⟩ := run_bind_ok.mp h3
-  obtain ⟨hrg, hrq, hrn⟩ := removeIdentities_run hrem
-  have hs3 : s = s3 := by
-    dsimp only at h4
-    rcases run_ite_ok.mp h4 with ⟨hc, _⟩ | ⟨_, h4⟩
-    · cases hc
-    · exact (run_pure_ok.mp h4).2
-  subst hs3
+  obtain ⟨extra, f1, f2, f3, f4⟩ := compile_tail h3
   obtain ⟨hp1, hm1, hgc1, hex1, hn1⟩ := init_pre2 s.qc.numQubits hin hnd hfresh hx
   have hinv1 : Inv inputs (envOf (inputs.zip x)) (toF (initState x s.qc.numQubits)) [] s1 :=
     ⟨hp1, hm1, (by rw [hgc1]; intro g hg; exact absurd hg List.not_mem_nil),
@@ -753,29 +951,24 @@ theorem compile_named_sem {inputs : List String} {defs : List (String × BExp)} 
   obtain ⟨q, hq⟩ := hfin.pre.bound p.1 hrs
   have hval := (hfin.pre.tbl p.1 q (Or.inl hrs) hq).2.2
   rw [kval_scope hfin.pre.scopeOK hrs] at hval
-  have hg2 := hfin.pre.good
-  refine ⟨q, by rw [hrq]; exact hq, ?_⟩
-  rw [hrg, removeIdentitiesList_sound _ (fun g hg => (hg2.gates_ok g hg).2.1)]
-  have hlen : (initState x s.qc.numQubits).length = s.qc.numQubits :=
-    initState_length x _ (by
-      rw [hrn, hx, ← hn1]
+  refine ⟨q, by rw [f3]; exact hq, ?_⟩
+  rw [compile_tail_val hgs hfin.pre.good f1 f2 f4 (by
+      rw [hx, ← hn1]
       exact (compileDefs_ok (B := fun _ => True) defs hdefs hp1.good (fun _ _ => trivial)).1.nq_le)
-  have hspec := congrFun (runF_spec s2.qc.gates.toList (initState x s.qc.numQubits) (by
-    intro g hg w hw
-    rw [hlen, hrn]
-    exact (hg2.gates_ok g hg).2.2.1 w hw)) q
-  exact hspec.trans hval
+    (fun hu => List.mem_filterMap.mpr ⟨p.1, hrr hu, hq⟩)]
+  exact hval
 
 /-- **one definition `r = e` with constants**, with or without final uncomputation: after every successful
-run of `compile` the qubit mapped to `r` ends with the value of `e`, on every input (the statement loop and
-the final `uncompute_all` are handled as in `compile_single_sem`: no replayed gate targets the result qubit) -/
+run of `compile` the qubit mapped to `r` ends with the value of `e`, on every input (the defined name is a
+requested return bit, or there is no final uncomputation, so the statement ends with the inline `uncompute`,
+which replays no gate whose target is the result qubit; neither does the final `uncompute_all`) -/
 theorem compile_const_sem {inputs : List String} {r : String} {e : BExp} {rets : List String}
     {unc : Bool} {cs : List Nat} {s : CState}
     (h : (compile inputs [(r, e)] (some rets) unc).run { choices := cs } = .ok ((), s))
     (hr : unc = true → r ∈ rets)
     (hnd : inputs.Nodup) (hfresh : ∀ n ∈ inputs, n ≠ r ∧ reservedName n = false)
     (hrT : r ≠ "TRUE" ∧ r ≠ "FALSE")
-    (hwf : wfExp inputs true e = true) (hdist : Distinct (compKeys e))
+    (hwf : wfExpW inputs true e = true) (hdist : Distinct (compKeys e))
     (x : List Bool) (hx : x.length = inputs.length) :
     ∃ q, dictGet? s.qc.qmap r = some q ∧
       (runClassical s.qc.gates.toList (initState x s.qc.numQubits)).getD q false =
@@ -788,31 +981,24 @@ theorem compile_const_sem {inputs : List String} {r : String} {e : BExp} {rets :
   obtain ⟨u1, s1, hin, h2⟩ := run_bind_ok.mp h1
   obtain ⟨st1, _, _, _⟩ := addInputs_ok inputs hin hg0
   obtain ⟨u2, s2, hdefs, h3⟩ := run_bind_ok.mp h2
-  obtain ⟨st2, _⟩ := compileDefs_ok (B := (· = r)) [(r, e)] hdefs st1.good
+  obtain ⟨st2, _⟩ := compileDefs_ok (B := (· = r)) (retBits := some rets) (doUnc := unc) [(r, e)] hdefs st1.good
     (fun p hp => by simp at hp; rw [hp])
   have hg2 := st2.good
-  obtain ⟨u3, s3, hrem, h4⟩ := run_bind_ok.mp h3
-  obtain ⟨hrg, hrq, hrn⟩ := removeIdentities_run hrem
-  have hfin : ∃ extra, s.qc.gates.toList = s3.qc.gates.toList ++ extra ∧
-      (∀ g ∈ extra, unc = true ∧ (rets.filterMap (dictGet? s3.qc.qmap)).contains g.target = false) ∧
-      s.qc.qmap = s3.qc.qmap ∧ s.qc.numQubits = s3.qc.numQubits := by
-    dsimp only at h4
-    rcases run_ite_ok.mp h4 with ⟨hc, h4⟩ | ⟨_, h4⟩
-    · obtain ⟨qc, s4, hq, h5⟩ := run_bind_ok.mp h4
-      obtain ⟨rfl, rfl⟩ := getQC_run hq
-      obtain ⟨extra, e1, e2, e3, e4⟩ := uncomputeAll_gates h5
-      exact ⟨extra, e1, fun g hg => ⟨hc, e2 g hg⟩, e3, e4⟩
-    · obtain ⟨_, rfl⟩ := run_pure_ok.mp h4
-      exact ⟨[], by simp, by simp, rfl, rfl⟩
-  obtain ⟨extra', f1, f2, f3, f4⟩ := hfin
+  obtain ⟨extra', f1, f2, f3, f4⟩ := compile_tail h3
   obtain ⟨hp1, hm1, _, hex1, hn1'⟩ := init_pre2 s.qc.numQubits hin hnd (fun n hn => (hfresh n hn).2) hx
   have hnin2 : inputs.length ≤ s2.qc.numQubits := by rw [← hn1']; exact st2.nq_le
   -- the statement loop
   unfold compileDefs at hdefs
-  dsimp only at hdefs
   obtain ⟨iret, t1, he, k1⟩ := run_bind_ok.mp hdefs
-  obtain ⟨u4, t2, hset, k2⟩ := run_bind_ok.mp k1
+  obtain ⟨u40, t1', hrs, k1'⟩ := run_bind_ok.mp k1
+  obtain ⟨u4, t2, hset, k2⟩ := run_bind_ok.mp k1'
   obtain ⟨u5, t3, hmap, k3⟩ := run_bind_ok.mp k2
+  have hinl : inlineUncompute (some rets) unc r = true := by
+    unfold inlineUncompute
+    cases unc with
+    | false => rfl
+    | true => simpa using hr rfl
+  rw [if_pos hinl] at k3
   obtain ⟨unc', t4, hunc, k4⟩ := run_bind_ok.mp k3
   obtain ⟨u6, t5, hrm, k5⟩ := run_bind_ok.mp k4
   unfold compileDefs at k5
@@ -830,12 +1016,15 @@ theorem compile_const_sem {inputs : List String} {r : String} {e : BExp} {rets :
     · rw [hm1] at h'; cases h'
     · exact h'.1.2.2 rfl
   have hlt : iret < t1.qc.numQubits := notAvail_lt hnav1
-  have q2 : Step (· = r) t1 t2 := expqSet_ok hset hpt1.good hlt
-  obtain ⟨hqc2, _⟩ := expqSet_run hset
-  obtain ⟨q3, hkey⟩ := mapQubit_ok (B := (· = r)) hmap q2.good (Nat.lt_of_lt_of_le hlt q2.nq_le) rfl
-    (by intro hp
-        have : r.startsWith "__" = true := by simpa using hp
-        simp [scratchName, this])
+  have q1' : Step (· = r) t1 t1' := expqRemoveSymbol_ok hrs hpt1.good
+  have hqc1' : t1'.qc = t1.qc := by
+    unfold expqRemoveSymbol at hrs
+    have := run_modify_ok.mp hrs; subst this; rfl
+  have q2 : Step (· = r) t1' t2 := expqSet_ok hset q1'.good (Nat.lt_of_lt_of_le hlt q1'.nq_le)
+  obtain ⟨hqc2', _⟩ := expqSet_run hset
+  have hqc2 : t2.qc = t1.qc := hqc2'.trans hqc1'
+  obtain ⟨q3, hkey⟩ := mapQubit_ok (B := (· = r)) hmap q2.good
+    (Nat.lt_of_lt_of_le hlt (q1'.trans q2).nq_le) rfl (by intro hp; cases hp)
   obtain ⟨hg3, hm3, _⟩ := mapQubit_run hmap
   obtain ⟨extra, e1, e2, e3, e4⟩ := uncompute_gates hunc
   have hqc5 := expqRemove_run hrm
@@ -848,28 +1037,25 @@ theorem compile_const_sem {inputs : List String} {r : String} {e : BExp} {rets :
       have := e2 g hg
       rw [ht, hm3, hqc2] at this
       exact hnm this
-  have hkey3 : dictGet? s3.qc.qmap r = some iret := by rw [hrq, hqc5, e3]; exact hkey
-  refine ⟨iret, by rw [f3]; exact hkey3, ?_⟩
-  rw [f1, hrg, runClassical_append, removeIdentitiesList_sound _ (fun g hg => (hg2.gates_ok g hg).2.1),
-    ← runClassical_append]
-  have hN : s.qc.numQubits = s2.qc.numQubits := f4.trans hrn
-  have hlen : (initState x s.qc.numQubits).length = s.qc.numQubits :=
-    initState_length x _ (by rw [hN, hx]; exact hnin2)
-  have hspec := congrFun (runF_spec (s2.qc.gates.toList ++ extra') (initState x s.qc.numQubits) (by
-    intro g hg w hw
-    rw [hlen]
-    rcases List.mem_append.mp hg with hg | hg
-    · rw [hN]; exact (hg2.gates_ok g hg).2.2.1 w hw
-    · exact (hgs.gates_ok g (by rw [f1]; exact List.mem_append_right _ hg)).2.2.1 w hw)) iret
-  refine hspec.trans ?_
-  rw [runF_append, untargeted_runF]
-  · exact hcur
-  · intro g hg hlast
-    have ht : g.target = iret := by unfold AGate.target; rw [hlast]; rfl
-    obtain ⟨hu, hk⟩ := f2 g hg
-    rw [ht] at hk
-    have : iret ∈ rets.filterMap (dictGet? s3.qc.qmap) := List.mem_filterMap.mpr ⟨r, hr hu, hkey3⟩
-    have : (rets.filterMap (dictGet? s3.qc.qmap)).contains iret = true := by simpa using this
-    rw [hk] at this; cases this
+  have hkey2 : dictGet? s2.qc.qmap r = some iret := by rw [hqc5, e3]; exact hkey
+  refine ⟨iret, by rw [f3]; exact hkey2, ?_⟩
+  rw [compile_tail_val hgs hg2 f1 f2 f4 (by rw [hx]; exact hnin2)
+    (fun hu => List.mem_filterMap.mpr ⟨r, hr hu, hkey2⟩)]
+  exact hcur
+
+/-! ### the classes without the De Morgan restriction -/
+
+/-- class (c) of `QV.C02` over the expression class of the repaired compiler: `inFragmentNamed` with `slDefsW`
+for `slDefs`, i.e. `Or` of any arity over any arguments (symbols, constants, compound expressions) -/
+def inFragmentNamedW (inputs : List String) (defs : List (String × BExp)) (rets : List String) : Bool :=
+  decide inputs.Nodup && inputs.all (fun n => !reservedName n) && slDefsW inputs defs &&
+    distinctB (defs.flatMap (fun p => compKeys p.2)) && rets.all (fun r => defs.any (fun p => p.1 == r))
+
+theorem inFragmentNamedW_of_inFragmentNamed {inputs : List String} {defs : List (String × BExp)}
+    {rets : List String} (h : inFragmentNamed inputs defs rets = true) :
+    inFragmentNamedW inputs defs rets = true := by
+  simp only [inFragmentNamed, Bool.and_eq_true] at h
+  simp only [inFragmentNamedW, Bool.and_eq_true]
+  exact ⟨⟨⟨h.1.1.1, slDefsW_of_slDefs _ _ h.1.1.2⟩, h.1.2⟩, h.2⟩
 
 end QV.Compiler
